@@ -17,4 +17,17 @@ var properties = map[string]*Property{
 		OutsideClaim: []string{"plans with more than 2 blocks, 2 sequences per block, 2 actions per sequence, 2 actions per check group",
 			"quick tier: blocks after the first and sequences after the first of a block are minimal (one action); check-group subsets are taken from {none, each single group, all five}"},
 	},
+	"C20": {
+		ID: "C20",
+		Runs: []Run{
+			{Dir: "c20", Pkg: "workflow/builder", Fn: "VerifC20History", Needs: []string{"plan emitted and compared", "emitted plan with a block", "Plan() after misuse"}},
+			{Dir: "c20", Pkg: "workflow/builder", Fn: "VerifC20Step", Needs: []string{"plan emitted and compared", "Plan() after misuse"}},
+		},
+		Assumptions: append([]string{
+			"reference interpreter of call sequences written from the package documentation: first misuse stored and sticky until Reset, cursor moves as documented",
+			"what Err() returns after a second Plan() or after a failed Reset is unspecified: only absence of panics is checked from there on",
+		}, commonAssumptions...),
+		OutsideClaim: []string{"call sequences longer than 3 (quick) / 4 (thorough) calls from New, or longer than 2 calls from each of the 5x2x2 directly constructed cursor/error/emitted states",
+			"WithGroupID options; argument strings other than one valid and one blank representative"},
+	},
 }
